@@ -47,6 +47,8 @@ import (
 	p2_goldilocks "github.com/consensys/gnark-crypto/field/goldilocks/poseidon2"
 	p2_koalabear "github.com/consensys/gnark-crypto/field/koalabear/poseidon2"
 
+	fr_bls12377 "github.com/consensys/gnark-crypto/ecc/bls12-377/fr"
+	fft_bls12377 "github.com/consensys/gnark-crypto/ecc/bls12-377/fr/fft"
 	sis_bls12377 "github.com/consensys/gnark-crypto/ecc/bls12-377/fr/sis"
 	sis_babybear "github.com/consensys/gnark-crypto/field/babybear/sis"
 	sis_goldilocks "github.com/consensys/gnark-crypto/field/goldilocks/sis"
@@ -944,11 +946,61 @@ func c14RunSis(out, tier, config string, seed uint64, only map[string]bool, smal
 				}
 				t.Emit(e)
 			}
+			// bls12-377, degree 64, 16-bit limbs: InnerHash takes a mask that selects one of 16 unrolled partial FFTs (bit i
+			// clear = the i-th field element of the polynomial is zero). Hash always passes the full mask; here the hash is
+			// assembled from InnerHash calls with the tightest admissible mask per polynomial, for every mask value.
+			if pk.field == "bls12-377/fr" && s.logd == 6 && s.lb == 2 {
+				rsis := rs.Interface().(*sis_bls12377.RSis)
+				for m := 0; m < 16; m++ {
+					masks := []uint64{uint64(m), uint64(15 - m)}
+					vals := make([]*big.Int, 8)
+					for i := range vals {
+						if (masks[i/4]>>uint(i%4))&1 == 1 {
+							vals[i] = rng.Below(f.Q)
+							if vals[i].Sign() == 0 {
+								vals[i].SetInt64(1)
+							}
+						} else {
+							vals[i] = new(big.Int)
+						}
+					}
+					raws := make([]*big.Int, len(vals))
+					for i, v := range vals {
+						raws[i] = f.ToMont(v)
+					}
+					v := f.NewVec(raws)
+					e := Ev{"op": "SisHash", "si": si + 1, "v": f.VecRaw(v), "reslen": d, "via": "InnerHash", "masks": []int{m, 15 - m}}
+					var outv []fr_bls12377.Element
+					_, msg, pnk := call(reflect.ValueOf(func() {
+						outv = c14SisInner377(rsis, v.Interface().(fr_bls12377.Vector), masks)
+					}))
+					if pnk {
+						e["panic"] = msg
+					} else {
+						e["vafter"] = f.VecRaw(v)
+						e["out"] = f.VecRaw(reflect.ValueOf(fr_bls12377.Vector(outv)))
+					}
+					t.Emit(e)
+				}
+			}
 		}
 		events += t.Close()
 		files++
 	}
 	return
+}
+
+// c14SisInner377 is RSis.Hash written with InnerHash and one mask per polynomial
+func c14SisInner377(r *sis_bls12377.RSis, v fr_bls12377.Vector, masks []uint64) []fr_bls12377.Element {
+	res := make(fr_bls12377.Vector, r.Degree)
+	k := make(fr_bls12377.Vector, r.Degree)
+	kz := make(fr_bls12377.Vector, r.Degree)
+	it := sis_bls12377.NewLimbIterator(sis_bls12377.NewVectorIterator(v), r.LogTwoBound/8)
+	for i := 0; i < len(r.Ag); i++ {
+		r.InnerHash(it, res, k, kz, i, masks[i])
+	}
+	r.Domain.FFTInverse(res, fft_bls12377.DIT, fft_bls12377.OnCoset(), fft_bls12377.WithNbTasks(1))
+	return res
 }
 
 func runC14(args []string) {
